@@ -201,6 +201,10 @@ class Interp:
     def st_Pass(self, st, fr):
         pass
 
+    def st_FunctionDef(self, st, fr):
+        # a nested function is only *defined* here; it is verified through the real closure object
+        fr.env[st.name] = _NestedDef(st.name)
+
     def st_Assign(self, st, fr):
         v = self.ev(st.value, fr)
         for t in st.targets:
@@ -865,6 +869,21 @@ class Interp:
             model = self.models.get(f)
         except TypeError:
             model = None
+        if model is None and type(getattr(f, "__self__", None)).__name__ == "Struct" and getattr(f, "__name__", "") in ("pack", "unpack"):
+            # a precompiled struct.Struct: same contract as the module-level functions
+            import struct as _struct
+            fmt = f.__self__.format
+            model = (lambda it, fr_, *a: self.models[_struct.pack](it, fr_, fmt, *a)) if f.__name__ == "pack" else \
+                (lambda it, fr_, *a: self.models[_struct.unpack](it, fr_, fmt, *a))
+        if model is None and isinstance(getattr(f, "__self__", None), (bytes, bytearray)) and getattr(f, "__name__", "") == "join" \
+                and not isinstance(getattr(f, "__self__", None), bytearray) and f.__self__ == b"":
+            def model(it, fr_, parts):
+                if isinstance(parts, Sym):
+                    raise Undecided("bytes.join over a symbolic iterable")
+                segs = []
+                for x in self.iterate(parts):
+                    segs.extend(as_bytes(x))
+                return SBytes(segs)
         if model is not None:
             return model(self, fr, *args, **kwargs)
         summ = self.summaries(f)
@@ -940,6 +959,9 @@ class Interp:
             return
         self.ctx.effects.append(("call-on-shared", f"{type(owner).__name__}.{name}", self.where(node, fr),
                                  self.provenance(owner, fr)))
+        import collections
+        if not isinstance(owner, (dict, list, set, bytearray, io.IOBase, collections.deque)):
+            return          # not a data container (e.g. a logger): recorded, executed natively
         raise FrameViolation(f"FRAME: possibly mutating method {type(owner).__name__}.{name} called on a shared object "
                              f"({self.provenance(owner, fr)})")
 
@@ -1170,6 +1192,16 @@ class _NativeCM:
             self.cm.__exit__(_BodyRaised, _BodyRaised("exception in the with-body"), None)
         except _BodyRaised:
             pass
+
+
+class _NestedDef:
+    """placeholder for a function defined inside a body that is being scanned"""
+
+    def __init__(self, name):
+        self.__name__ = self.__qualname__ = name
+
+    def __call__(self, *a, **k):
+        raise Undecided(f"call of the nested definition {self.__name__} inside a scanned body")
 
 
 class SymMethod:
